@@ -454,8 +454,8 @@ fn c08(ctx: &Ctx, rep: &mut Report) {
     let (sb, sroot) = Sandbox::nested("c08");
     let recs = option_records();
     let mut rng = ctx.rng("c08");
-    let trees = if ctx.thorough { 1600 } else { 160 } / ctx.shards + 1;
-    let stride = if ctx.thorough { 1 } else { 7 };
+    let trees = if ctx.thorough { 4000 } else { 320 } / ctx.shards + 1;
+    let stride = if ctx.thorough { 1 } else { 3 };
     let max_nodes = if ctx.thorough { 25 } else { 12 };
     if ctx.shard == 0 {
         rep.count("option_records", recs.len() as u64);
